@@ -74,7 +74,11 @@ def reseat_bpm_changes_snap(
                 offsets.insert(i + 1, offset)
 
         # Extend case, see docstring
-        elif 0 < beat_diff_rem <= extend_threshold:
+        # (BCS_1 must be off the measure line by at least a whole beat)
+        elif (
+            0 < beat_diff_rem <= extend_threshold
+            and beat_diff_quo % bcs_0.metronome != 0
+        ):
             # Check if it's possible to extend by changing metronome
             metronome = beat_diff_quo % bcs_0.metronome
             bcs = BpmChangeSnap(
